@@ -125,9 +125,24 @@ fn run_stream(alpha: &[Elt], seq: &[usize], bytewise: bool, cuts: Option<&[usize
     // prelude on its own connection: k = "5" flags 1
     let tok = {
         let mut c = w.connect()?;
-        c.step(&w, &Req::store(op::SET, b"k", b"5", 1, 0, 0).bytes())?;
+        let io = c.step(&w, &Req::store(op::SET, b"k", b"5", 1, 0, 0).bytes());
         let (r, _) = wire::split_responses(&c.got);
-        let t = r.first().map(|x| x.cas).unwrap_or(0);
+        // the prelude is a client like any other: one plain set on a fresh server, one answer
+        if io.is_err() || r.len() != 1 || r[0].status != st::OK || r[0].opcode != op::SET {
+            return Ok(Outcome {
+                viol: Some((
+                    "next-connection|disturbed".into(),
+                    format!(
+                        "a fresh connection to a fresh server sent one set and received {:?}{} (state carried over from other connections of the process)",
+                        r.iter().map(|x| x.short()).collect::<Vec<_>>(),
+                        if io.is_err() { " and lost the connection" } else { "" }
+                    ),
+                )),
+                chunks: 1,
+                responses: r.len() as u64,
+            });
+        }
+        let t = r[0].cas;
         c.close(&w);
         t
     };
